@@ -327,7 +327,7 @@ def malformed(rng, mesh):
 
 
 def gen_cases(ctx):
-    n_mesh = 40 if ctx.tier == 'quick' else 400
+    n_mesh = 60 if ctx.tier == 'quick' else 450
     cases = []
     kinds = list(gen.KINDS)
     for i in range(n_mesh):
